@@ -25,6 +25,66 @@ def owners_of(body, op, pred=lambda ty: ty.startswith('[u8;')):
     return [l for l in o.locals if pred(body.lty(l))]
 
 
+
+def chain_as_fold(prog, kd, ad, T):
+    """the derivation chain written as `paths.fold((parent_secret, None), |(secret, _), path| { .. (child_secret, Some(child)) })`: same obligations as the
+    loop form, the loop-carried secret being the accumulator component. Returns (ok, msg) or None when keyderive has no such fold."""
+    folds = [b for b in kd.calls() if b.term.cmethod == 'fold' and b.term.ctrait == 'std::iter::Iterator' and len(b.term.args) == 3]
+    if len(folds) != 1:
+        return None
+    f = folds[0].term
+    ce = expr_of(kd, f.args[2])
+    if ce[0] != 'agg' or ce[3].j.get('agg') != 'closure':
+        return None
+    C = prog.body('mlar', ce[3].j['closure'])
+    if C is None:
+        return None
+    der = [b for b in C.calls() if cnorm(b.term) == norm(ad.defpath)]
+    fs = [b for b in C.calls() if b.term.cmethod == 'from_seed' and b.term.ctrait.endswith('SeedableRng')]
+    gk = [b for b in C.calls() if cnorm(b.term).endswith('generate_keypair')]
+    pin = [b for b in C.calls() if cnorm(b.term).endswith('parse_openssl_25519_privkey')]
+    pout = [b for b in kd.calls() if cnorm(b.term).endswith('parse_openssl_25519_privkey')]
+    if not (len(der) == 1 and len(fs) == 1 and len(gk) == 1 and len(pin) == 1 and len(pout) == 1):
+        return (False, 'anchors (fold form): apply_derive=%d from_seed=%d generate_keypair=%d parse=%d+%d' % (len(der), len(fs), len(gk), len(pin), len(pout)))
+    okt = T['keygen']['prng'] in fs[0].term.callee.get('self_ty', '')
+    okseed = fs[0].term.args[0].place is not None and must_derive(C, fs[0].term.args[0].place[0], lambda k, ob, bb: k == 'call' and bb == der[0].idx)
+    okgen = gk[0].term.args[0].place is not None and must_derive(C, gk[0].term.args[0].place[0], lambda k, ob, bb: k == 'call' and bb == fs[0].idx)
+    po = origins(C, [pin[0].term.args[0].place[0]])
+    okre = gk[0].idx in po.calls and any('private_der' in x for x in po.fields)
+    # which component of the accumulator (closure parameter 2) is the secret handed to apply_derive
+    comp = []
+
+    def acc_src(kind, obj, bb):
+        if kind == 'assign' and obj.kind == 'assign' and obj.rv is not None:
+            pls = obj.rv.src_places()
+            if len(pls) == 1 and pls[0][0] == 2:
+                fl = [p for p in pls[0][1] if p[0] == 'f']
+                if fl:
+                    comp.append(fl[0][1])
+                    return True
+        return False
+    a1 = der[0].term.args[1]
+    oksec = a1.place is not None and must_derive(C, a1.place[0], acc_src) and len(set(comp)) == 1
+    a0 = der[0].term.args[0]
+    okpath = a0.place is not None and must_derive(C, a0.place[0], lambda k, ob, bb: k == 'param' and ob == 3)
+    okchain = okinit = False
+    if oksec:
+        k = comp[0]
+        # the closure returns (.., child secret at position k, ..); the fold starts from (.., parent secret at position k, ..)
+        rets = [st for bl in C.blocks if not bl.cleanup for st in bl.stmts if st.kind == 'assign' and st.place == (0, ()) and st.rv.r == 'aggregate' and st.rv.j.get('agg') == 'tuple']
+        okchain = len(rets) == 1 and k < len(rets[0].rv.ops) and rets[0].rv.ops[k].place is not None and \
+            must_derive(C, rets[0].rv.ops[k].place[0], lambda kk, ob, bb: kk == 'call' and bb == pin[0].idx, extra_transparent=('unwrap', 'expect', 'branch'))
+        ie = expr_of(kd, f.args[1])
+        okinit = ie[0] == 'agg' and ie[3].j.get('agg') == 'tuple' and k < len(ie[3].ops) and ie[3].ops[k].place is not None and \
+            must_derive(kd, ie[3].ops[k].place[0], lambda kk, ob, bb: kk == 'call' and bb == pout[0].idx, extra_transparent=('unwrap', 'expect', 'branch'))
+    io = origins(kd, [f.args[0].place[0]]) if f.args[0].place is not None else None
+    okiter = io is not None and any(kd.blocks[x].term.cmethod == 'get_many' for x in io.calls)
+    ok = okt and okseed and okgen and okre and oksec and okpath and okchain and okinit and okiter
+    return (ok, 'per path (fold): ChaCha20Rng::from_seed(apply_derive(path, secret)) -> generate_keypair -> next secret = parse(private_der)' if ok else
+            'derivation chain (fold form) differs (chacha20=%s seed=%s gen=%s reparse=%s secret-from-accumulator=%s path=%s chained=%s init=%s paths=%s)'
+            % (okt, okseed, okgen, okre, oksec, okpath, okchain, okinit, okiter))
+
+
 def run(prog, rep, tier):
     T = json.load(open(TBL))
     mlar = prog.crates['mlar']
@@ -154,7 +214,10 @@ def run(prog, rep, tier):
         ps = [b for b in kd.calls() if cnorm(b.term).endswith('parse_openssl_25519_privkey')]
         ok = len(der) == 1 and len(fs) == 1 and len(gk) == 1 and len(ps) == 2
         msg = 'anchors: apply_derive=%d from_seed=%d generate_keypair=%d parse=%d' % (len(der), len(fs), len(gk), len(ps))
-        if ok:
+        folded = chain_as_fold(prog, kd, ad, T) if not ok else None
+        if folded is not None:
+            ok, msg = folded
+        elif ok:
             inl = all(x.idx in loop for x in (der[0], fs[0], gk[0])) and sum(1 for p in ps if p.idx in loop) == 1
             okt = T['keygen']['prng'] in fs[0].term.callee.get('self_ty', '')
             okseed = fs[0].term.args[0].place is not None and must_derive(kd, fs[0].term.args[0].place[0], lambda k, ob, bb: k == 'call' and bb == der[0].idx)
